@@ -122,12 +122,14 @@ CHECKS = {
         'thorough': {'shards': 16, 'timeout': 3600},
     },
     'C19': {
-        'pkg': 'internal/multiplex', 'test': 'TestVerif_C19', 'level': 'exploration',
+        'pkg': 'internal/multiplex', 'test': 'TestVerif_C19',
+        'parts': [{'pkg': 'internal/multiplex', 'test': 'TestVerif_C19'}, {'pkg': 'internal/server', 'test': 'TestVerif_C19Sys', 'shards': 8}],
+        'level': 'exploration',
         'technique': 'runtime monitor on a virtual clock: exact all-intervals token-bucket bound (running-minimum formulation) over the tapped record stream of real sessions sharing one valve, plus a bounded-progress lower bound for backlogged senders',
         'level_text': '1..3 real session pairs x 1..4 connections x 1..8 single-writer streams share one LimitedValve; traffic runs for about 30 virtual seconds in a synctest bubble; sent records are timestamped at the instant their tokens were granted '
                       '(the network never blocks a write), accepted records when the receiving loop comes back for the next record; for every pair of events the bound bytes <= rate x t x 1.01 + one second\'s worth is checked exactly, '
                       'and backlogged runs must reach rate x t x 0.99 minus one message.',
-        'level_note': 'Assumes ' + A_RACE + ' (the rate limiter sleeps on the bubble\'s virtual clock) and ' + A_HARNESS + '. The metered unit is the record payload (what the valve counts). The database-configured rates of the whole server are exercised in C16\'s rig, not here.',
+        'level_note': 'Assumes ' + A_RACE + ' (the rate limiter sleeps on the bubble\'s virtual clock) and ' + A_HARNESS + '. The metered unit is the record payload (what the valve counts). A second part (server package) lets several first connections of one database user race through the real dispatcher and checks the same bound over all of that user\'s sessions together.',
         'rule': 'case = (rate, sessions, connections, streams, write-size set, direction tx/rx/both, idle gap, method); distinct = hash of the case; non-trivial = the traffic volume exceeds the initial burst so that the limiter actually throttles (except the 1e8 B/s rate, which checks the burst bound only)',
         'assumptions': [A_RACE, A_HARNESS],
         'quick': {'shards': 16, 'timeout': 900},
